@@ -3537,10 +3537,11 @@ func (ev *gemEval) constTable(x ast.Expr, e *env) []tableRow {
 			return nil
 		}
 		for _, fd := range allFuncDecls(ev.g.pkg) {
-			if info.Defs[fd.Name] != types.Object(fn) || fd.Body == nil || len(fd.Body.List) != 1 || fd.Recv != nil {
+			if info.Defs[fd.Name] != types.Object(fn) || fd.Body == nil || len(fd.Body.List) == 0 || fd.Recv != nil {
 				continue
 			}
-			ret, ok := fd.Body.List[0].(*ast.ReturnStmt)
+			// (the literal may be preceded by plain definitions of locals it is built from: name := t.Name.Value)
+			ret, ok := fd.Body.List[len(fd.Body.List)-1].(*ast.ReturnStmt)
 			if !ok || len(ret.Results) != 1 {
 				return nil
 			}
@@ -3553,15 +3554,33 @@ func (ev *gemEval) constTable(x ast.Expr, e *env) []tableRow {
 			for _, prm := range fd.Type.Params.List {
 				t := info.TypeOf(prm.Type)
 				for _, nm := range prm.Names {
-					if i >= len(call.Args) || t == nil || !isStringType(t) {
+					if i >= len(call.Args) || t == nil {
 						return nil
 					}
-					e2.vals[info.Defs[nm]] = ev.fold(call.Args[i], e)
+					if isStringType(t) {
+						e2.vals[info.Defs[nm]] = ev.fold(call.Args[i], e)
+					} else if aid, isID := ast.Unparen(call.Args[i]).(*ast.Ident); !isID || aid.Name != nm.Name || len(fd.Body.List) == 1 {
+						// a node handed through under its own name reads the same on both sides; anything else is not followed
+						return nil
+					}
 					i++
 				}
 			}
 			if i != len(call.Args) {
 				return nil
+			}
+			for _, st := range fd.Body.List[:len(fd.Body.List)-1] {
+				as, ok := st.(*ast.AssignStmt)
+				if !ok || as.Tok != token.DEFINE || len(as.Lhs) != 1 || len(as.Rhs) != 1 {
+					return nil
+				}
+				lid, ok := as.Lhs[0].(*ast.Ident)
+				if !ok {
+					return nil
+				}
+				if t := info.TypeOf(as.Rhs[0]); t != nil && isStringType(t) {
+					e2.vals[info.Defs[lid]] = ev.fold(as.Rhs[0], e2)
+				}
 			}
 			return ev.tableRows(lit, e2)
 		}
